@@ -15,10 +15,16 @@
 (* body.  This module enumerates where the construct stands and who reads  *)
 (* x, transcribes the rule that decides the dropping, and lets TLC decide  *)
 (* that it drops only bindings nobody reads.                               *)
-(*   RuleVariant = "pinned": the pinned commit (accesses counted in the    *)
+(*   RuleVariant = "pinned":  the pinned commit (accesses counted in the   *)
 (*                 assigning scope only)                                   *)
-(*   RuleVariant = "tree":   after the fix: commit (and the name is        *)
-(*                 private to that scope)                                  *)
+(*   RuleVariant = "private": after the first fix: commit (and the name is *)
+(*                 private to that scope) - reads from a nested function   *)
+(*                 are still not counted                                   *)
+(*   RuleVariant = "tree":    all references of the binding are counted,   *)
+(*                 those from nested scopes included                       *)
+(* A dropped binding is replaced by its value: inside `not ...` or a       *)
+(* comparison an operator expression then needs parentheses of its own     *)
+(* (vkind = "op"); the harness executes every program before and after.    *)
 (***************************************************************************)
 EXTENDS Naturals, FiniteSets, TLC
 
@@ -27,22 +33,27 @@ CONSTANT RuleVariant
 Scopes == {"module", "function", "global", "nonlocal", "class"}
 Tests  == {"name", "not", "isnone", "eq", "ne"}
 Values == {"zero", "one", "none"}              \* what compute() returns (both branches, both comparison outcomes)
+VKinds == {"atom", "op"}                       \* the assigned value: a call | an operator expression (`compute() or fallback()`)
 InScopeReads == {"body", "else", "after"}      \* reads in the scope of the assignment itself
+Nested == "nested"                             \* a read from a function defined inside that scope (a closure)
 Outside == "outside"                           \* a read through the global / enclosing / class namespace, after the construct ran
 
 CanReadOutside(s) == s \in {"global", "nonlocal", "class"}
 
-Programs == {[scope |-> s, test |-> t, value |-> v, reads |-> R] :
-               s \in Scopes, t \in Tests, v \in Values, R \in SUBSET (InScopeReads \cup {Outside})}
-WellFormed(p) == (Outside \in p.reads) => CanReadOutside(p.scope)
+Programs == {[scope |-> s, test |-> t, value |-> v, vkind |-> vk, reads |-> R] :
+               s \in Scopes, t \in Tests, v \in Values, vk \in VKinds, R \in SUBSET (InScopeReads \cup {Outside, Nested})}
+WellFormed(p) == /\ (Outside \in p.reads) => CanReadOutside(p.scope)
+                 /\ (Nested \in p.reads) => p.scope \in {"module", "function"}
 
 \* the rule of leave_If: `_single_access` counts the accesses recorded for the name in the assigning scope (the test
 \* itself is one of them)
 AccessesInScope(p) == 1 + Cardinality(p.reads \cap InScopeReads)
+References(p) == 1 + Cardinality(p.reads \cap (InScopeReads \cup {Nested}))     \* of the binding, from any scope nested in its own
 Private(p) == p.scope \in {"module", "function"}
 RuleDrops(p) ==
-  IF RuleVariant = "pinned" THEN AccessesInScope(p) = 1
-  ELSE AccessesInScope(p) = 1 /\ Private(p)
+  CASE RuleVariant = "pinned"  -> AccessesInScope(p) = 1
+    [] RuleVariant = "private" -> AccessesInScope(p) = 1 /\ Private(p)
+    [] OTHER                   -> References(p) = 1 /\ Private(p)
 
 \* dropping the binding is behaviour preserving iff nobody reads it
 SafeToDrop(p) == p.reads = {}
